@@ -26,7 +26,7 @@ MANIFEST = {
 RULE = ("a case is (Rust type, site, mode); non-trivial = the type has at least one constructor; distinct = distinct "
         "(type, site, mode). Streams: corpus (known-finding witnesses and regression cases), spines (every constructor at "
         "every argument position, nested to depth 2 quick / 3 thorough, leaves String,&str,i32,u64,f64,bool,(),struct,enum), "
-        "numeric (all 14 widths at every position of every depth-1 type), random (depth <= 6), raw (malformed ASCII strings, "
+        "numeric (all 14 widths at every position of every depth-1 type), random (depth <= 6), random-clean (depth <= 6, generated outside the two parser classes), raw (malformed ASCII strings, "
         "unit-level functions only, correspondence only)")
 TRUSTED = [
     "Spec/TsType.v + Model/Render.v lexer: TypeScript type grammar subset with postfix [] above |, generics, tuples, qualified names (no tsc in the sandbox)",
@@ -218,6 +218,7 @@ def run(rep):
     run_stream(rep, "numeric", [{"ty": t} for t in T.numeric_sweep()], stats)
     nrand = 20000 if thorough else 1500
     run_stream(rep, "random", [{"ty": T.random_type(rng, rng.randint(2, 6))} for _ in range(nrand)], stats)
+    run_stream(rep, "random-clean", [{"ty": T.random_clean_type(rng, rng.randint(2, 6))} for _ in range(nrand)], stats)
     rep.add("raw", evaluate_raw(raw_cases(rng, 20000 if thorough else 3000)))
     rep.extra["class_counts"] = stats.get("classes", {})
     rep.extra["in_class_but_property_holds"] = stats.get("in_class_but_ok", {})
